@@ -19,7 +19,7 @@ EXPLANATION = (
     "out), except the stdin spool (paired create/remove, R15f) and the --log-file handler; R10b the condition "
     "guarding the write-back, the flag returned up the fix chain, the guard of the 'Fixed:' announcement and the "
     "per-run fixed flag have one provenance; R10c every False-initialised flag that is reassigned inside a loop of "
-    "the run driver is reassigned monotonically; R10d a later fault cannot lose the flag; R10e (=R15f) every temporary file, the scan-stdin spool included, is removed on every normal and exceptional exit. "
+    "the run driver is reassigned monotonically; R10d a later fault cannot lose the flag; R10e (=R15f) every temporary file, the scan-stdin spool included, is removed on every normal and exceptional exit; R10f the API's fix/scan results are built from the captured announcements, never from the exit code. "
     "Not decided: that a recorded fix actually changed bytes, or that no bytes change without a recorded fix inside "
     "the regeneration (that is C02's round trip); the interpreter's own __pycache__ writes when a plugin module is "
     "imported are outside the property."
@@ -337,6 +337,10 @@ def run(ctx: Context) -> None:
     ctx.rules[-1].rule_id = "R10e"
     for finding in ctx.rules[-1].findings:
         finding.rule = "R10e"
+    from sa.rules import c16
+
+    # the API's "files fixed" answer is the list of 'Fixed:' announcements, in both return-code schemes
+    c16.api_results_from_presentation(ctx, "R10f")
     if ctx.tier == "thorough":
         from sa.rules import driver_exploration
 
